@@ -44,4 +44,18 @@ Proof.
     eapply Permutation_NoDup; [apply Permutation_cons_append|]. now constructor.
 Qed.
 
+
+  Lemma dget_ddel_same k d : dget k (ddel k d) = None.
+  Proof.
+    unfold ddel. induction d as [|[k' v] r IH]; simpl; [reflexivity|].
+    destruct (str_eqb k k') eqn:E; simpl; [exact IH|]. now rewrite E.
+  Qed.
+
+  Lemma dget_ddel_other k k' d : k <> k' -> dget k (ddel k' d) = dget k d.
+  Proof.
+    intros Hne. unfold ddel. induction d as [|[k2 v] r IH]; simpl; [reflexivity|].
+    destruct (str_eqb k' k2) eqn:E; simpl.
+    - apply str_eqb_eq in E. subst. apply str_eqb_neq in Hne. now rewrite Hne.
+    - destruct (str_eqb k k2); auto.
+  Qed.
 End DictFacts.
